@@ -111,6 +111,42 @@ func CreateSubscription(c gocoro.Coroutine[*t_aio.Submission, *t_aio.Completion,
 					Timeout:   r.CreateSubscription.Timeout,
 					CreatedOn: createdOn,
 				}
+			} else {
+				// The insert is guarded by "promise is pending and subscription does not exist".
+				// If the promise was completed after we read it, it must not be reported as
+				// pending, read it again.
+				completion, err := gocoro.YieldAndAwait(c, &t_aio.Submission{
+					Kind: t_aio.Store,
+					Tags: r.Tags,
+					Store: &t_aio.StoreSubmission{
+						Transaction: &t_aio.Transaction{
+							Commands: []*t_aio.Command{
+								{
+									Kind: t_aio.ReadPromise,
+									ReadPromise: &t_aio.ReadPromiseCommand{
+										Id: r.CreateSubscription.PromiseId,
+									},
+								},
+							},
+						},
+					},
+				})
+
+				if err != nil {
+					slog.Error("failed to read promise", "req", r, "err", err)
+					return nil, t_api.NewError(t_api.StatusAIOStoreError, err)
+				}
+
+				util.Assert(completion.Store != nil, "completion must not be nil")
+				util.Assert(len(completion.Store.Results) == 1, "completion must have one result")
+
+				if result := completion.Store.Results[0].ReadPromise; result != nil && result.RowsReturned == 1 {
+					p, err = result.Records[0].Promise()
+					if err != nil {
+						slog.Error("failed to parse promise record", "record", result.Records[0], "err", err)
+						return nil, t_api.NewError(t_api.StatusAIOStoreError, err)
+					}
+				}
 			}
 		}
 
